@@ -85,12 +85,95 @@ func (sc c03Scenario) class() string {
 	return fmt.Sprintf("%s|nt%d|ro%v|drain%v|%s|placed=%v", sc.Cmd, sc.NT, sc.Rollout, sc.DrainTO, strings.Join(ks, ","), sc.Placed)
 }
 
+// c03Span: requests held by a pause (and requests stalled between route lookup and claim) while
+// one to three redeploys replace the targets; after each deploy returned nothing may reach the
+// targets it replaced, in particular not the held requests once they are released.
+func c03Span(t *testing.T, run *Run, idx int, rng *rand.Rand) {
+	w := NewWorld(t, WorldOpt{})
+	defer w.Close()
+	run.Eval()
+	const svc = "svc"
+	nDeploys := 1 + rng.IntN(3)
+	nt := 1 + rng.IntN(2)
+	desc := map[string]any{"idx": idx, "kind": "pause-span", "deploys": nDeploys, "targets": nt}
+	fail := func(sig, format string, a ...any) {
+		run.Violate(sig, fmt.Sprintf(format, a...), desc, func() []string { return w.Trace(200) })
+	}
+	mk := func(g int) []string {
+		var out []string
+		for i := 0; i < nt; i++ {
+			name := fmt.Sprintf("g%d-t%d:80", g, i)
+			w.AddTarget(name, nil)
+			out = append(out, name)
+		}
+		return out
+	}
+	if c := w.Deploy(svc, mk(0), DefSO, DefTO, 5*time.Second, time.Second); c.Err != "" {
+		run.Inconclusive("setup: %s", c.Err)
+		return
+	}
+	usePause := rng.IntN(3) != 0
+	if usePause {
+		w.At(900*time.Millisecond, func() { w.Pause(svc, time.Second, 100*time.Second) })
+	}
+	// held (or stalled) requests arrive before the first redeploy
+	for i := 0; i < 4; i++ {
+		id := fmt.Sprintf("h%d", i)
+		if !usePause {
+			// stalled between route lookup and claim until after the last redeploy
+			w.SetReqDelay(id, "route.resolved", time.Duration(nDeploys)*time.Second+time.Duration(200+100*i)*time.Millisecond)
+		}
+		w.GoReq(950*time.Millisecond+time.Duration(i)*Step+OffArrival, Req{ID: id, Host: "c03.example", Path: "/held"})
+	}
+	rets := make([]time.Duration, nDeploys+1)
+	for d := 1; d <= nDeploys; d++ {
+		d := d
+		w.At(time.Duration(d)*time.Second, func() {
+			c := w.Deploy(svc, mk(d), DefSO, DefTO, 5*time.Second, 500*time.Millisecond)
+			if c.Err != "" {
+				fail("command-failed", "redeploy %d failed: %s", d, c.Err)
+			}
+			rets[d] = c.Ret
+		})
+	}
+	tResume := time.Duration(nDeploys+1)*time.Second + 500*time.Millisecond
+	if usePause {
+		w.At(tResume, func() { w.Resume(svc) })
+	}
+	w.GoReq(tResume+time.Second+OffArrival, Req{ID: "late", Host: "c03.example", Path: "/late"})
+	w.Wait()
+	for g := 0; g < nDeploys; g++ {
+		for i := 0; i < nt; i++ {
+			name := fmt.Sprintf("g%d-t%d:80", g, i)
+			for _, q := range w.Target(name).ReqLog() {
+				if rets[g+1] > 0 && q.Recv > rets[g+1] {
+					fail("sent-after-return:deploy:held-across-redeploys", "request %s reached replaced target %s at %v; the deploy that replaced it had returned at %v (%d redeploys, pause=%v)", q.ID, name, q.Recv, rets[g+1], nDeploys, usePause)
+					return
+				}
+			}
+		}
+	}
+	for _, r := range w.RespLog() {
+		if r.Status != 200 || !strings.HasPrefix(r.Target, fmt.Sprintf("g%d-", nDeploys)) && (r.ID == "late" || usePause) {
+			fail("held-request-outcome", "request %s: status=%d target=%q (final generation g%d, pause=%v)", r.ID, r.Status, r.Target, nDeploys, usePause)
+			return
+		}
+	}
+	run.Class(fmt.Sprintf("span|deploys=%d|nt=%d|pause=%v", nDeploys, nt, usePause))
+}
+
 func TestC03(t *testing.T) {
 	run := NewRun(t, "C03")
 	defer run.Finish()
 	n := run.N(400, 24000)
 	for i := 0; i < n; i++ {
 		sc := c03Gen(run.Rand(i), i)
+		if i%8 == 7 {
+			if run.Mine(i, map[string]any{"idx": i, "kind": "pause-span"}) {
+				synctest.Test(t, func(t *testing.T) { c03Span(t, run, i, run.Rand(i)) })
+			}
+			continue
+		}
 		if !run.Mine(i, sc) {
 			continue
 		}
